@@ -27,8 +27,10 @@ VARIABLES l, cur,
 
 NoCur == [has |-> FALSE]
 
-Out(i, rec, v, rt) ==
-    PrintT(<<"VERDICT", ToJson([i |-> i, ev |-> rec.ev, v |-> v.v, rt |-> rt.v, d |-> v, rd |-> rt, after |-> dist])>>)
+NoDom == [cls |-> "na", why |-> {}]
+Out5(i, rec, v, rt, dom) ==
+    PrintT(<<"VERDICT", ToJson([i |-> i, ev |-> rec.ev, v |-> v.v, rt |-> rt.v, d |-> v, rd |-> rt, after |-> dist, dom |-> dom])>>)
+Out(i, rec, v, rt) == Out5(i, rec, v, rt, NoDom)
 
 Ok(s) == [v |-> s]
 
@@ -66,11 +68,14 @@ DoEncode ==
     /\ LET rec == Recs[l] IN
        IF rec.res # "ok"
        THEN /\ cur' = NoCur
-            /\ Out(l, rec, [v |-> "encode-failed", res |-> rec.res], Ok("ok-na"))
+            \* refusing is the agreed outcome outside the core domain, a failure inside it
+            /\ LET dom == Domain(OpsOf(rec.ops)) IN
+               Out5(l, rec, [v |-> IF dom.cls = "refusable" THEN "ok-refused" ELSE "encode-failed", res |-> rec.res], Ok("ok-na"), dom)
        ELSE LET ops == OpsOf(rec.ops)
                 rd == ReadOps(rec.bytes)
+                j == JudgeAgainst(ops, rd)
             IN /\ cur' = [has |-> TRUE, bytes |-> rec.bytes, rd |-> rd, enc |-> TRUE, ops |-> ops]
-               /\ Out(l, rec, JudgeAgainst(ops, rd), Ok("ok-na"))
+               /\ Out5(l, rec, j, Ok("ok-na"), Domain(ops))
     /\ l' = l + 1
 
 DoDecode ==
